@@ -36,18 +36,10 @@ func (v *Vue) evalVShow(ctx VueContext, n *html.Node) error {
 func (v *Vue) setStyleProperty(n *html.Node, property, value string) {
 	styleVal := helpers.GetAttr(n, "style")
 
-	// Parse existing styles
-	styleMap := parseStyleString(styleVal)
-	styleMap[property] = value
-
-	// Rebuild style string
-	var styles []string
-	for _, k := range styleOrder(styleVal, property+":"+value) {
-		if v, ok := styleMap[k]; ok {
-			styles = append(styles, k+":"+v+";")
-		}
-	}
-	helpers.AppendAttr(n, "style", strings.Join(styles, ""))
+	// The declarations that are there stay as they are, in their order - a property may be declared
+	// more than once (width:100px;width:calc(...) is a fallback chain) - only the one being set is
+	// replaced, like a bound style replaces it.
+	helpers.AppendAttr(n, "style", v.mergeStyles(styleVal, property+":"+value))
 }
 
 // parseStyleString parses a CSS style string into a map.
